@@ -18,6 +18,8 @@ import (
 	"github.com/jamespfennell/gtfs/journal"
 	gtfsrt "github.com/jamespfennell/gtfs/proto"
 
+	"google.golang.org/protobuf/proto"
+
 	"verifharness/canon"
 	"verifharness/core"
 	"verifharness/rgen"
@@ -206,6 +208,20 @@ func runC18(c *core.Ctx) {
 			}
 			msg = c06FeedLarge(r, c.Index*8+i, sizes[i])
 		}
+		if i < 2 {
+			// the two hot inputs (parsed by many goroutines at the very start) carry values no earlier case of this process has
+			// shown the library: Mercury priorities that are in no table and unique to this case, an id prefix never seen. Whatever
+			// a code path does only on the FIRST encounter of a value then happens while other goroutines are inside the parser.
+			a := &gtfsrt.Alert{}
+			for k := 0; k < 3; k++ {
+				sel := &gtfsrt.EntitySelector{RouteId: rgen.S(fmt.Sprintf("NEW%d", k))}
+				proto.SetExtension(sel, gtfsrt.E_MercuryEntitySelector, &gtfsrt.MercuryEntitySelector{SortOrder: rgen.S(fmt.Sprintf("MTASBWY:N:%d", 100000+c.Index*16+i*4+k))})
+				a.InformedEntity = append(a.InformedEntity, sel)
+			}
+			eff := gtfsrt.Alert_Effect(1 + (c.Index+i)%10)
+			a.Effect = &eff
+			msg.Entity = append(msg.Entity, &gtfsrt.FeedEntity{Id: rgen.S(fmt.Sprintf("first-seen-%d-%d", c.Index, i)), Alert: a})
+		}
 		if long {
 			// long values: one trip with hundreds of stop time updates and a vehicle with a 20 KiB label in every input, so
 			// that hashing / dumping a single value from several goroutines runs through any size-triggered scratch path
@@ -242,22 +258,39 @@ func runC18(c *core.Ctx) {
 		defer rb.Free()
 	}
 	zone := mustZone("America/New_York")
-	// sequential baseline with fresh options
+	// sequential baseline with fresh options: "what the call returns running alone". Three cases out of four compute it AFTER
+	// the concurrent phase, so that whatever a code path does only the first time it runs in a process (lazy initialisation,
+	// "log once" bookkeeping, first use of a cache) happens inside the concurrent phase and not in a warm-up before it.
 	rtBase := make([]string, len(rtBufs))
-	for i, b := range rtBufs {
-		rt, err := gtfs.ParseRealtime(b.B, &gtfs.ParseRealtimeOptions{Timezone: zone, Extension: cfg.mk()})
-		rtBase[i] = rtDump(rt, err).norm
-	}
 	stBase := make([]string, len(stBufs))
 	stOpts := gtfs.ParseStaticOptions{InheritWheelchairBoarding: c.Index%2 == 0}
-	for i, b := range stBufs {
-		s, err := gtfs.ParseStatic(b.B, stOpts)
-		if err != nil {
-			stBase[i] = "error: " + err.Error()
-		} else {
-			stBase[i] = canon.DumpStatic(s, false, true)
+	baseline := func() {
+		for i, b := range rtBufs {
+			rt, err := gtfs.ParseRealtime(b.B, &gtfs.ParseRealtimeOptions{Timezone: zone, Extension: cfg.mk()})
+			rtBase[i] = rtDump(rt, err).norm
+		}
+		for i, b := range stBufs {
+			s, err := gtfs.ParseStatic(b.B, stOpts)
+			if err != nil {
+				stBase[i] = "error: " + err.Error()
+			} else {
+				stBase[i] = canon.DumpStatic(s, false, true)
+			}
 		}
 	}
+	baselineFirst := c.Index%4 == 0
+	if baselineFirst {
+		baseline()
+		c.Feature("baseline-before-the-concurrent-phase")
+	} else {
+		c.Feature("baseline-after-the-concurrent-phase")
+	}
+	type c18Out struct {
+		static bool
+		input  int
+		dump   string
+	}
+	outs := make([][]c18Out, G)
 	// the ONE shared options value
 	shared := &gtfs.ParseRealtimeOptions{Timezone: zone, Extension: cfg.mk()}
 
@@ -323,10 +356,7 @@ func runC18(c *core.Ctx) {
 						d = canon.DumpStatic(s, false, true)
 						stResults[g] = append(stResults[g], s)
 					}
-					cmps.Add(1)
-					if path, desc, differ := diffPath(stBase[i], d); differ {
-						report("C18|concurrent-result-differs|static|"+path, "a concurrent ParseStatic call returned something else than the same call alone: "+desc, map[string]any{"goroutines": G})
-					}
+					outs[g] = append(outs[g], c18Out{true, i, d})
 					continue
 				}
 				i := gr.Intn(len(rtBufs))
@@ -341,11 +371,7 @@ func runC18(c *core.Ctx) {
 				if err == nil {
 					rtResults[g] = append(rtResults[g], rt)
 				}
-				cmps.Add(1)
-				if path, desc, differ := diffPath(rtBase[i], rtDump(rt, err).norm); differ {
-					report("C18|concurrent-result-differs|"+strings.SplitN(cfg.name, "{", 2)[0]+"|"+path, "a concurrent ParseRealtime call sharing one options value returned something else than the same call alone with fresh options: "+desc,
-						map[string]any{"configuration": cfg.name, "goroutines": G})
-				}
+				outs[g] = append(outs[g], c18Out{false, i, rtDump(rt, err).norm})
 			}
 			mu.Lock()
 			calls = append(calls, local...)
@@ -354,6 +380,23 @@ func runC18(c *core.Ctx) {
 	}
 	close(start)
 	wg.Wait()
+	if !baselineFirst {
+		baseline()
+	}
+	for g := range outs {
+		for _, o := range outs[g] {
+			cmps.Add(1)
+			if o.static {
+				if path, desc, differ := diffPath(stBase[o.input], o.dump); differ {
+					report("C18|concurrent-result-differs|static|"+path, "a concurrent ParseStatic call returned something else than the same call alone: "+desc, map[string]any{"goroutines": G})
+				}
+			} else if path, desc, differ := diffPath(rtBase[o.input], o.dump); differ {
+				report("C18|concurrent-result-differs|"+strings.SplitN(cfg.name, "{", 2)[0]+"|"+path, "a concurrent ParseRealtime call sharing one options value returned something else than the same call alone with fresh options: "+desc,
+					map[string]any{"configuration": cfg.name, "goroutines": G})
+			}
+		}
+	}
+	outs = nil
 
 	// read phase: results returned by different calls are read from several goroutines at once
 	jrnl := c18Journal(rtResults)
